@@ -25,13 +25,21 @@
 (*   rule  [k |-> "ip" | "net" | "zone" | "host", via |-> "str" | "api", l, sp, lead,   *)
 (*          b, bits]    via: AddFromString or the typed Add* method; lead: AddZone     *)
 (*          argument with ("." ) or without ("") leading dot.                         *)
+(*         [k |-> "junk", via |-> "str", j |-> kind, ...]  an AddFromString item that is    *)
+(*          none of the four documented forms.  "A best effort is made to parse the     *)
+(*          string and errors are ignored": such an item adds no rule and does not       *)
+(*          affect the other items of the string, wherever it stands.  Kinds: malformed   *)
+(*          CIDR ("10.0.0.0/33", "a/b", "1.2.3.4/", "/8", "fe80::1%en0/10", "host/path"),  *)
+(*          empty and white-space-only items.  The items "*.", "." and "*" (U5) are        *)
+(*          not documented either way: they may match nothing or act as a catch-all.      *)
 (* Route(rules, h) is the SET of admissible outcomes out of "bypass", "default",       *)
 (* "none" (error without dialling).  More than one element exactly where the          *)
 (* documentation is silent:                                                          *)
 (*   U1  names that differ only in letter case (sp l vs m),                           *)
 (*   U2  a trailing dot on one side only (sp d vs l/m),                               *)
 (*   U3  IPv4-mapped IPv6 literals read as IPv6 or as the embedded IPv4 address,       *)
-(*   U4  an address without a port: default dialer, or an error without dialling.     *)
+(*   U4  an address without a port: default dialer, or an error without dialling,     *)
+(*   U5  the items "*." / "." (every name?) and "*" (every address?).                 *)
 (* Identical spellings are decided: a dialled name that is the same string as an added *)
 (* host, or is/ends in (on a label boundary) the same string as an added zone, has to  *)
 (* go to the bypass dialer -- also when both carry a trailing dot.                     *)
@@ -58,8 +66,16 @@ Def(rule, h) ==
       [] h.k = "ip"   -> rule.k \in {"ip", "net"} /\ \A hb \in Readings(h.b), rb \in RReadings(rule) : IpRel(rule, hb, rb)
       [] OTHER -> FALSE
 
+\* U5: undocumented catch-all spellings
+Lenient(rule, h) ==
+    /\ rule.k = "junk"
+    /\ \/ rule.j \in {"stardot", "dot", "star"} /\ h.k = "name"
+       \/ rule.j = "star" /\ h.k = "ip"
+StrictJunk(rule) == rule.k = "junk" /\ rule.j \notin {"stardot", "dot", "star"}
+
 May(rule, h) ==
-    CASE h.k = "name" -> rule.k \in {"host", "zone"} /\ NameRel(rule, h)                        \* U1, U2
+    CASE Lenient(rule, h) -> TRUE
+      [] h.k = "name" -> rule.k \in {"host", "zone"} /\ NameRel(rule, h)                        \* U1, U2
       [] h.k = "ip"   -> rule.k \in {"ip", "net"} /\ \E hb \in Readings(h.b), rb \in RReadings(rule) : IpRel(rule, hb, rb)
       [] OTHER -> FALSE
 
@@ -89,6 +105,11 @@ KindsSeparate(rules, H) ==
     \A h \in H : \A i \in 1 .. Len(rules) :
         /\ (h.k = "name" /\ rules[i].k \in {"ip", "net"}) => ~May(rules[i], h)
         /\ (h.k = "ip" /\ rules[i].k \in {"zone", "host"}) => ~May(rules[i], h)
+
+\* "errors are ignored": the rule set is the union of the rules of the well-formed items,
+\* independent of the malformed ones and of where they stand
+NotJunk(r) == ~StrictJunk(r)
+JunkIrrelevant(rules, H) == \A h \in H : Route(rules, h) = Route(SelectSeq(rules, NotJunk), h)
 
 NoRulesDefault(rules, H) == rules = <<>> => \A h \in H : h.k # "bad" => Route(rules, h) = {"default"}
 =============================================================================
